@@ -1243,3 +1243,66 @@ func H_C03_wake() {
 	_ = err
 	vCover("C03 wake: file confirmed")
 }
+
+// ---------------------------------------------------------------------------------------------
+// C02 (two files, the second never arrives): the scripted sender announces files a and b, delivers a
+// completely (frame and FileEnd) and then goes away - End, a clean end of the control stream, or nothing
+// more - without a single byte of b. Whatever the schedule (including one preemption before a lock
+// operation, e.g. while a file is being finalised by the stream reader and the control loop at once),
+// the receiver must not report success, and a is confirmed at most once.
+func H_C02_twofiles() {
+	srcA := vBytes("srcA", 1)
+	a := manifest.FileItem{RelPath: "a", Size: 1, ID: "ida"}
+	b := manifest.FileItem{RelPath: "b", Size: 1, ID: "idb"}
+	m := manifest.Manifest{Items: []manifest.FileItem{a, b}, TotalBytes: 2, FileCount: 2}
+	ka, kb := fileKeyForItem(a), fileKeyForItem(b)
+	control := &vMemStream{buf: vControlBytes(m)}
+	_ = writeDataStreams(control, DataStreams{Count: 1})
+	_ = writeFileBegin(control, FileBegin{RelPath: "a", FileSize: 1, ChunkSize: 4, StreamID: ka, HashAlg: HashAlgCRC32C})
+	_ = writeFileBegin(control, FileBegin{RelPath: "b", FileSize: 1, ChunkSize: 4, StreamID: kb, HashAlg: HashAlgCRC32C})
+	gate := len(control.buf)
+	_ = writeFileEnd(control, FileEnd{StreamID: ka})
+	switch vChoice("controlTail", 3) {
+	case 0:
+		_ = writeControlEnd(control)
+		vTag("control=End")
+	case 1:
+		vTag("control=eof")
+	default:
+		control.stall = true
+		vTag("control=silent")
+	}
+	hdr := make([]byte, dataChunkHeaderLen)
+	binary.BigEndian.PutUint64(hdr[0:8], ka)
+	binary.BigEndian.PutUint32(hdr[8:12], 0)
+	binary.BigEndian.PutUint32(hdr[12:16], 1)
+	binary.BigEndian.PutUint32(hdr[16:20], crc32.Checksum(srcA, crc32cTable))
+	data := &vMemStream{buf: append(hdr, srcA...)}
+	conn := &vScriptConn{streams: []Stream{control, data}}
+	out := vTempDir() + "/out"
+	okA, okB := 0, 0
+	opts := Options{NoRootDir: true, FileDoneFn: func(rel string, ok bool) {
+		if ok && rel == "a" {
+			okA++
+		}
+		if ok && rel == "b" {
+			okB++
+		}
+	}}
+	ctx := vContext("ctx", true)
+	if !vSymbolic() {
+		// native replay: a's FileEnd arrives 30 ms after its frame, finalising a file takes 100 ms (hook
+		// inserted by the replay overlay), the caller gives up after 800 ms
+		control.gateAt, control.gateDelay = gate, 30
+		vFinalizeYield = func() { time.Sleep(100 * time.Millisecond) }
+		defer func() { vFinalizeYield = func() {} }()
+		c, cancel := context.WithCancel(context.Background())
+		time.AfterFunc(800*time.Millisecond, cancel)
+		ctx = c
+	}
+	_, err := RecvManifestMultiStream(ctx, conn, out, opts)
+	vAssert(err != nil, "a receiver that never got the second file does not report success")
+	vAssert(okA <= 1, "a file is confirmed at most once")
+	vAssert(okB == 0, "a file that never arrived is not confirmed")
+	vCover("C02 two files: failure reported")
+}
